@@ -24,7 +24,8 @@
 (***************************************************************************)
 EXTENDS DiscoveryAbs, Json, SequencesExt
 
-CONSTANTS Leases,      \* lease values a participant may announce (ms; -1 = none announced)
+CONSTANTS Late,        \* the application creates its local writer and reader only after discovery has run for a while
+          Leases,      \* lease values a participant may announce (ms; -1 = none announced)
           Dts,         \* clock steps (ms)
           MaxSteps, MaxTime,
           GenK
@@ -39,9 +40,14 @@ VARIABLES
   rProx,     \* SUBSET E        Reader.matched_writers of the local reader
   wTotal, rTotal,   \* matched_readers_count_total / writer_match_count_total
   wInc, rInc,       \* requested_incompatible_qos_count / offered_incompatible_qos_count
+  lw, lr,           \* DPEventLoop.writers / .readers has the local writer / reader
+  cq,               \* [E -> BOOLEAN] the QoS stored with the endpoint's record (compatible with the local endpoint or not)
+  flip,             \* SUBSET E: endpoints whose record has been replaced by one of the other QoS class.  Nothing in the
+                    \* design depends on it; it is part of the state so that TLC keeps (and extends, and dumps for replay)
+                    \* the behaviours in which a record was overwritten apart from those in which it was not
   steps, trail
 
-implVars == <<pProx, pLife, pLease, ext, att, wProx, rProx, wTotal, rTotal, wInc, rInc>>
+implVars == <<pProx, pLife, pLease, ext, att, wProx, rProx, wTotal, rTotal, wInc, rInc, lw, lr, cq, flip>>
 vars == <<dabsVars, implVars, steps, trail>>
 
 Lt(a, b) == a < b
@@ -49,7 +55,8 @@ Lt(a, b) == a < b
 LeasesWithNone == {1100, 2500, -1}
 
 Init ==
-  /\ DAbsInit
+  /\ DAbsInitL(Late)
+  /\ lw = ~Late /\ lr = ~Late /\ cq = [e \in E |-> Compatible[e]] /\ flip = {}
   /\ pProx = [p \in P |-> FALSE] /\ pLife = [p \in P |-> 0] /\ pLease = [p \in P |-> -1]
   /\ ext = [e \in E |-> FALSE] /\ att = [e \in E |-> FALSE]
   /\ wProx = {} /\ rProx = {} /\ wTotal = 0 /\ rTotal = 0 /\ wInc = 0 /\ rInc = 0
@@ -71,10 +78,12 @@ WSide == [prox |-> wProx, total |-> wTotal, inc |-> wInc, evs |-> <<>>]
 RSide == [prox |-> rProx, total |-> rTotal, inc |-> rInc, evs |-> <<>>]
 Mine(side, e) == OnTopic[e] /\ (IF side = "w" THEN IsReader[e] ELSE ~IsReader[e])
 
-\* Writer::update_reader_proxy / Reader::update_writer_proxy for remote endpoint e
-Discovered(side, st, e) ==
-  IF ~Mine(side, e) THEN st
-  ELSE IF Compatible[e] THEN
+\* DPEventLoop::remote_reader_discovered / remote_writer_discovered -> Writer::update_reader_proxy /
+\* Reader::update_writer_proxy for remote endpoint e announcing QoS of class c; nothing happens without the local endpoint
+Has(side) == IF side = "w" THEN lw ELSE lr
+DiscoveredQ(side, st, e, c) ==
+  IF ~Mine(side, e) \/ ~Has(side) THEN st
+  ELSE IF c THEN
          IF e \in st.prox THEN st       \* known proxy: contents updated, no status
          ELSE LET pr == st.prox \cup {e} IN
               [st EXCEPT !.prox = pr, !.total = @ + 1,
@@ -88,6 +97,8 @@ Lost(st, e) ==
   ELSE LET pr == st.prox \ {e} IN
        [st EXCEPT !.prox = pr,
                   !.evs = Append(@, [k |-> "Matched", e |-> e, cur |-> Cardinality(pr), chg |-> -1, tot |-> st.total])]
+
+Discovered(side, st, e) == DiscoveredQ(side, st, e, cq[e])
 
 RECURSIVE LostFold(_, _, _)
 LostFold(st, es, i) == IF i > Len(es) THEN st ELSE LostFold(Lost(st, es[i]), es, i + 1)
@@ -130,13 +141,14 @@ Spdp(p, l) ==
      /\ ext' = extN /\ att' = attN
      /\ SetSides(w, r)
      /\ AbsSpdp(p, l, Obs(w, r, proxN, extN, attN), FALSE)
+     /\ UNCHANGED <<lw, lr, cq, flip>>
      /\ Log([a |-> "Spdp", p |-> p, lease |-> l, defer |-> Defer])
 
 \* DiscoveryDB::participant_is_alive
 Alive(p) ==
   /\ pLife' = [pLife EXCEPT ![p] = IF pProx[p] THEN now ELSE @]
   /\ AbsAlive(p, Obs(WSide, RSide, pProx, ext, att))
-  /\ UNCHANGED <<pProx, pLease, ext, att, wProx, rProx, wTotal, rTotal, wInc, rInc>>
+  /\ UNCHANGED <<pProx, pLease, ext, att, wProx, rProx, wTotal, rTotal, wInc, rInc, lw, lr, cq, flip>>
   /\ Log([a |-> "Alive", p |-> p])
 
 \* DiscoveryDB::participant_cleanup + DPEventLoop::remote_participant_lost for each one removed
@@ -154,6 +166,7 @@ Cleanup ==
   IN /\ pProx' = proxN /\ ext' = extN /\ att' = attN
      /\ SetSides(w, r)
      /\ AbsCleanup(lost, Obs(w, r, proxN, extN, attN))
+     /\ UNCHANGED <<lw, lr, cq, flip>>
      /\ UNCHANGED <<pLife, pLease>>
      /\ Log([a |-> "Cleanup", defer |-> Defer])
 
@@ -166,21 +179,48 @@ DisposeP(p) ==
   IN /\ pProx' = proxN /\ ext' = extN
      /\ SetSides(w, r)
      /\ AbsDisposeP(p, Obs(w, r, proxN, extN, att))
+     /\ UNCHANGED <<lw, lr, cq, flip>>
      /\ UNCHANGED <<pLife, pLease, att>>
      /\ Log([a |-> "DisposeP", p |-> p, defer |-> Defer])
 
 \* SEDP data: update_subscription / update_publication + remote_reader_discovered / remote_writer_discovered.
 \* The participant need not be known (its first SPDP announcement may have been lost): the endpoint is stored and
 \* matched all the same; it has no lease of its own until its participant is heard.
-Announce(e) ==
+\* c: the QoS announced this time; update_subscription / update_publication store the record as announced.
+Announce(e, c) ==
   /\ LET extN == [ext EXCEPT ![e] = TRUE]
-         w == Discovered("w", WSide, e)
-         r == Discovered("r", RSide, e)
+         w == DiscoveredQ("w", WSide, e, c)
+         r == DiscoveredQ("r", RSide, e, c)
      IN /\ ext' = extN
+        /\ cq' = [cq EXCEPT ![e] = c]
+        /\ flip' = IF (ext[e] \/ att[e]) /\ c # cq[e] THEN flip \cup {e} ELSE flip
         /\ SetSides(w, r)
-        /\ AbsAnnounce(e, Obs(w, r, pProx, extN, att))
-  /\ UNCHANGED <<pProx, pLife, pLease, att>>
-  /\ Log([a |-> "Announce", e |-> e, defer |-> Defer])
+        /\ AbsAnnounceQ(e, c, Obs(w, r, pProx, extN, att))
+  /\ UNCHANGED <<pProx, pLife, pLease, att, lw, lr>>
+  /\ Log([a |-> "Announce", e |-> e, c |-> c, defer |-> Defer])
+
+\* DPEventLoop::add_local_writer / add_local_reader: the new endpoint is matched with every endpoint on its topic that the
+\* DiscoveryDB holds (external_readers_on_topic / external_writers_on_topic), in GUID order, by the QoS stored there
+CreateLocal(side) ==
+  /\ ~Has(side)
+  /\ lw' = (lw \/ side = "w") /\ lr' = (lr \/ side = "r")
+  /\ LET S == SetToSortSeq({e \in E : ext[e] /\ Mine(side, e)}, Lt)
+         f[i \in 0..Len(S)] == IF i = 0 THEN (IF side = "w" THEN WSide ELSE RSide)
+                               ELSE LET st == f[i - 1]
+                                        e == S[i]
+                                    IN IF cq[e]
+                                         THEN IF e \in st.prox THEN st
+                                              ELSE LET pr == st.prox \cup {e} IN
+                                                   [st EXCEPT !.prox = pr, !.total = @ + 1,
+                                                              !.evs = Append(@, [k |-> "Matched", e |-> e, cur |-> Cardinality(pr), chg |-> 1, tot |-> st.total + 1])]
+                                         ELSE [st EXCEPT !.inc = @ + 1,
+                                                         !.evs = Append(@, [k |-> "IncompatibleQos", e |-> e, cur |-> st.inc + 1, chg |-> 1, tot |-> st.inc + 1])]
+         w == IF side = "w" THEN f[Len(S)] ELSE WSide
+         r == IF side = "r" THEN f[Len(S)] ELSE RSide
+     IN /\ SetSides(w, r)
+        /\ AbsCreateLocal(side, Obs(w, r, pProx, ext, att))
+  /\ UNCHANGED <<pProx, pLife, pLease, ext, att, cq, flip>>
+  /\ Log([a |-> "CreateLocal", side |-> side])
 
 \* SEDP dispose: remove_topic_reader / remove_topic_writer + remote_reader_lost / remote_writer_lost
 DisposeE(e) ==
@@ -190,7 +230,7 @@ DisposeE(e) ==
      IN /\ ext' = extN
         /\ SetSides(w, r)
         /\ AbsDisposeE(e, Obs(w, r, pProx, extN, att))
-  /\ UNCHANGED <<pProx, pLife, pLease, att>>
+  /\ UNCHANGED <<pProx, pLife, pLease, att, lw, lr, cq, flip>>
   /\ Log([a |-> "DisposeE", e |-> e, defer |-> Defer])
 
 Next ==
@@ -198,7 +238,11 @@ Next ==
   \/ \E p \in P, l \in Leases : Spdp(p, l)
   \/ \E p \in P : Alive(p) \/ DisposeP(p)
   \/ Cleanup
-  \/ \E e \in E : Announce(e) \/ DisposeE(e)
+  \* the QoS of an announcement may differ from the last one only for the Mutable endpoints and only while the local
+  \* endpoint they concern does not exist yet
+  \/ \E e \in E : \E c \in (IF e \in Mutable /\ ~Has(IF IsReader[e] THEN "w" ELSE "r") THEN BOOLEAN ELSE {cq[e]}) : Announce(e, c)
+  \/ \E e \in E : DisposeE(e)
+  \/ \E side \in {"w", "r"} : CreateLocal(side)
 
 Spec == Init /\ [][Next]_vars
 Bound == steps <= MaxSteps
@@ -209,6 +253,8 @@ Inv_ParticipantsAgree == \A p \in P : pProx[p] = known[p]
 Inv_AtticOnlyOfAbsent == \A e \in E : att[e] => ~pProx[Owner[e]]
 Inv_MatchedAreKnown   == \A e \in wProx \cup rProx : ext[e]
 Inv_LifeSignsAgree    == \A p \in P : pProx[p] => pLife[p] = lastSign[p]
+Inv_LocalAgree        == lw = haveW /\ lr = haveR /\ cq = cls
+Inv_AnnouncedAreKnown == \A e \in E : ann[e] => ext[e]
 
-GenEdge == (GenK > 0 /\ RandomElement(1..GenK) = 1) => PrintT("REPLAY " \o ToJson([acts |-> trail']))
+GenEdge == (GenK > 0 /\ RandomElement(1..GenK) = 1) => PrintT("REPLAY " \o ToJson([acts |-> trail', late |-> Late]))
 ============================================================================
